@@ -7,6 +7,7 @@
    Part 3: frame facts for the state-level primitives, `Inv : st -> Prop`, `Ext` (what a step can add),
            and their preservation by apply / handle_front / drain / try_kill / finish_unsubs / settle / step / run. *)
 From JV Require Import Base.Bytes Base.Dec Base.Utf8 Json.Json Model.Wire Model.ClientMgr Proofs.DecFacts.
+From JV Require Import Proofs.ClientDispatchFacts.
 From Coq Require Import Permutation.
 Local Open Scope N_scope.
 Arguments N.add : simpl never.
@@ -1628,8 +1629,8 @@ Qed.
 
 Lemma handle_back_good s fr : Inv s -> dead s = false -> GoodL s (rres_st (handle_back s fr)).
 Proof.
-  intros I D. destruct fr as [x|ms|]; cbn [handle_back].
-  - destruct x as [r|me sid p|me sid p|me p|]; cbn [handle_elem_single rres_st].
+  intros I D. destruct fr as [x|ms|]; rewrite ?handle_back_now; cbn [handle_back_ref].
+  - destruct x as [r|me sid p|me sid p|me p|]; cbn [handle_elem_single_ref rres_st].
     + apply single_response_good; auto.
     + apply sub_deliver_good; auto.
     + apply sub_close_good; auto.
